@@ -99,6 +99,7 @@ CASES = {
     "max_bin": lambda a, b, c: torch.max(a, b), "maximum": lambda a, b, c: torch.maximum(a, b), "minimum": lambda a, b, c: torch.minimum(a, b[:1]),
     "logsumexp": lambda a, b, c: torch.logsumexp(a, dim=-1), "logsumexp_k": lambda a, b, c: torch.logsumexp(c, dim=1, keepdim=True),
     "softmax": lambda a, b, c: torch.softmax(a, dim=0), "log_softmax": lambda a, b, c: F.log_softmax(c, dim=-1),
+    "norm_dim": lambda a, b, c: torch.norm(a, dim=-1) ** 2, "norm_keep": lambda a, b, c: a.norm(dim=1, keepdim=True) ** 2, "norm_all": lambda a, b, c: torch.norm(a) ** 2,
     "cumsum0": lambda a, b, c: a.cumsum(0), "cumsum-1": lambda a, b, c: c.cumsum(-1), "all1": lambda a, b, c: (a > -1).all(1).double(), "anyall": lambda a, b, c: (a > 2).any().double(),
     # arithmetic variants
     "add_alpha": lambda a, b, c: torch.add(a, b, alpha=2), "sub_alpha": lambda a, b, c: torch.sub(a, b, alpha=0.5), "rsub": lambda a, b, c: 1 - a, "rdiv": lambda a, b, c: 2 / POS_(a),
